@@ -61,3 +61,30 @@ Definition zisconstant (p : zparr) : bool := @isconstant ZR p.
 Definition ztonumpy (p : zparr) := @tonumpy ZR p.
 Definition zdecompose (p : zparr) : zparr := @decompose ZR p.
 Definition zset_dimensions (o : opts) (p : zparr) (d : nat) : res zparr := @set_dimensions ZR o p d.
+
+(* ---- layout-level comparison (C03, C04) -------------------------------------------------- *)
+Inductive lexpect := LOk of seq nat & seq nat & seq (seq nat) & seq (seq Z) | LErr of err.
+Definition chk_layout (r : res zparr) (e : lexpect) : bool :=
+  match r, e with
+  | Ok p, LOk ns sh rs cs =>
+      [&& names p == ns, shape p == sh, size (rows p) == size (cols p) &
+          perm_eq (zip (rows p) (cols p)) (zip rs cs)]
+  | Err a, LErr b => err_eqb a b
+  | _, _ => false
+  end.
+Fixpoint all2b A B (f : A -> B -> bool) (xs : seq A) (ys : seq B) : bool :=
+  match xs, ys with
+  | [::], [::] => true
+  | x :: xs', y :: ys' => f x y && all2b f xs' ys'
+  | _, _ => false
+  end.
+Definition chk_layouts (r : res (seq zparr)) (es : seq lexpect) : bool :=
+  match r with
+  | Ok ps => all2b (fun p e => chk_layout (Ok p) e) ps es
+  | Err a => if es is [:: LErr b] then err_eqb a b else false
+  end.
+Definition zfrom_attributes rc rn ns sh rs (cs : seq (seq Z)) : res zparr := @from_attributes ZR rc rn ns sh rs cs.
+Definition zalign_shapes o (ps : seq zparr) := @align_shapes ZR o ps.
+Definition zalign_indets (ps : seq zparr) : res (seq zparr) := Ok (@align_indets ZR ps).
+Definition zalign_expons (ps : seq zparr) : res (seq zparr) := Ok (@align_expons ZR ps).
+Definition zalign_polys o (ps : seq zparr) := @align_polys ZR o ps.
